@@ -369,3 +369,64 @@ func GenRegime(r *hx.RNG, regime byte) []string {
 	}
 	return out
 }
+
+// GenHdrBoundary: a header block whose re-encoded size is around a multiple of the receiver's max
+// frame size (16384-12 .. 16384+8 once the few octets of field framing are added), with and
+// without priority, as HEADERS and as PUSH_PROMISE, optionally after the receiver changed its
+// MAX_FRAME_SIZE; the sender itself fragments at 9000 octets.
+func GenHdrBoundary(r *hx.RNG, i int) []string {
+	pick := func(xs ...int) int { return xs[r.Intn(len(xs))] }
+	y := r.Intn(2)
+	Y, X := sides[y], sides[1-y]
+	var out []string
+	maxf := 16384
+	if r.Chance(1, 3) {
+		maxf = pick(16385, 20000, 32768)
+		out = append(out, fmt.Sprintf("S%s:5=%d", X, maxf))
+	}
+	mult := pick(1, 1, 1, 2)
+	n := mult*maxf - 20 + i%29 // encoded block = n + 7 or so: sweeps across the boundary
+	pr := "-"
+	if r.Chance(2, 3) {
+		pr = fmt.Sprintf("%d.%d.%d", pick(0, 3), r.Intn(2), pick(1, 15, 255))
+	}
+	sid := pick(1, 3, 5)
+	if r.Chance(1, 3) {
+		// known finding C08-K2 forbids continuing a PUSH_PROMISE: it is sent whole
+		out = append(out, fmt.Sprintf("U%s:%d:1:%d:-:%d:0", Y, sid, pick(2, 4), 1000+n))
+	} else {
+		out = append(out, fmt.Sprintf("H%s:%d:%d:0:%s:%s:%d:9000", Y, sid, r.Intn(2), pr, []string{"-", "-", "7"}[r.Intn(3)], 1000+n))
+		out = append(out, fmt.Sprintf("C%s:%d:0:9000", Y, sid), fmt.Sprintf("C%s:%d:1:0", Y, sid))
+	}
+	out = append(out, fmt.Sprintf("H%s:%d:1:1:-:-:4:0", Y, sid+2))
+	return out
+}
+
+// GenInitWindow: the receiver changes INITIAL_WINDOW_SIZE (0, lowered, raised) BEFORE the first
+// frame of a stream in that direction, then DATA beyond min(65535, announced) is sent on it.
+func GenInitWindow(r *hx.RNG, i int) []string {
+	pick := func(xs ...int) int { return xs[r.Intn(len(xs))] }
+	y := i % 2
+	Y, X := sides[y], sides[1-y]
+	v := []int{0, 1, 10, 100, 20000, 70000, 1048576}[i%7]
+	out := []string{fmt.Sprintf("S%s:4=%d", X, v)}
+	if r.Chance(1, 2) {
+		out = append(out, "A"+Y)
+	}
+	out = append(out, fmt.Sprintf("H%s:1:0:1:-:-:0:0", Y))
+	if v <= 100 {
+		for k := 0; k < 3; k++ {
+			out = append(out, fmt.Sprintf("D%s:1:0:-:z%d.%d", Y, pick(1, 7, 60, 101), k))
+		}
+		out = append(out, fmt.Sprintf("W%s:1:%d", X, pick(1, 50, 200)))
+	} else {
+		// more than min(65535, announced) on the stream; the connection window is topped up first
+		out = append(out, fmt.Sprintf("W%s:0:100000", X))
+		for k := 0; k < 5; k++ {
+			out = append(out, fmt.Sprintf("D%s:1:0:-:z16384.%d", Y, k))
+		}
+		out = append(out, fmt.Sprintf("W%s:1:%d", X, pick(1, 20000)))
+	}
+	out = append(out, fmt.Sprintf("D%s:3:1:-:z5.1", Y))
+	return out
+}
